@@ -34,6 +34,9 @@ EXEMPT = {
         "references (no reference text contains another); the resulting references are sorted",
     ("dsl.py", "lightweight_validate.no_param_refs_in_parameter_defaults", "S2-loop"): "order of the returned error list only",
     ("dsl.py", "lightweight_validate.detect_unknown_variables", "S2-loop"): "order of the returned error list only",
+    ("graph.py", "WorkflowGraph._discover_dowhile_placeholders", "S4-partial-key-sort"):
+        "the instances matched by one placeholder are the iterations 0..k of one component: their iteration numbers are pairwise "
+        "different, so the key is injective on this set (and only its maximum is taken)",
     ("graph.py", "WorkflowGraph.active_backends", "S1-materialise"): "the only consumer initialises each backend once (treats it as a set)",
     ("graph.py", "WorkflowGraph._createPrimitiveGraph", "S2-loop"):
         "insertion order of nodes/edges into the networkx graph; the graph is equal by content (traversal order inside "
@@ -41,6 +44,33 @@ EXEMPT = {
     ("graph.py", "WorkflowGraph._createCompleteGraph", "S2-loop"): "same as _createPrimitiveGraph",
     ("graph.py", "WorkflowGraph._discover_dowhile_placeholders", "S1-listcomp"):
         "'represents' is sorted by its consumer (looped_reference_to_paths) or used as a set (controller)",
+}
+
+
+def _whole_reference_substitution(ctx, fn: ast.AST) -> bool:
+    """supporting fact of a conditional exemption: every reference substitution in fn goes through a strongly anchored,
+    escaped pattern (then the order in which the references are processed cannot change the result)"""
+    from vlib import sub
+    sites = [s for s in sub.find_sites(fn, include_nested=False) if not sub.is_literal_key(s)]
+    if not sites:
+        return False
+    for s in sites:
+        if s.kind != "regex":
+            return False
+        for (p, pfn, binds) in sub.resolve_pattern(fn, s.pattern):
+            info = sub.pattern_anchoring(p, pfn, binds)
+            if not (info["escaped_keys"] and info["left"] and info["right"] and not info["raw_interpolation"]
+                    and info.get("left_kind") == "strong"):
+                return False
+    return True
+
+
+# exemptions that hold only while a supporting fact (re-verified on every run) holds
+EXEMPT_IF = {
+    ("graph.py", "ComponentSpecification._compute_memoization_info", "S4-partial-key-sort"): (
+        "the order among references of equal length is immaterial: each reference is replaced as a whole (strongly anchored, "
+        "escaped pattern - re-verified here and by C16.R5), the inserted '<kind>:<digest>:<method>' text is no reference, and "
+        "the other uses of the list are keyed dictionary stores", _whole_reference_substitution),
 }
 
 
@@ -191,6 +221,8 @@ def run(ctx) -> None:
                 n_hits += 1
                 key = (m.rel.split("/")[-1], q, h.kind)
                 reason = EXEMPT.get(key)
+                if not reason and key in EXEMPT_IF and EXEMPT_IF[key][1](ctx, fn):
+                    reason = EXEMPT_IF[key][0]
                 if reason:
                     ctx.ob("C15.R1-order-taint", h.node, True, "%s: frozen as benign - %s" % (h.why, reason),
                            construct="%s %s" % (h.kind, short(h.node, 100)))
